@@ -24,6 +24,19 @@ UNITS = {
              'find': 'target_mapping.extend(source_mapping[start..].iter());', 'replace': 'target_mapping.extend(source_mapping[edit_end..].iter());', 'also': [('let mut start: usize = 0;', 'let mut start: usize = 0; let edit_end = source_mapping.len() - 1;')]},
         ],
     },
+    'v_buf0': {
+        'tpl': 'units/v_buf0.rs.tpl', 'rlimit': 40,
+        'mutants': [
+            {'name': 'limit off by a factor', 'file': 'sudachi/src/input_text/buffer/mod.rs',
+             'find': 'const MAX_LENGTH: usize = u16::MAX as usize / 4 * 3;', 'replace': 'const MAX_LENGTH: usize = u16::MAX as usize / 4 * 4;'},
+            {'name': 'commit forgets to swap the map', 'file': 'sudachi/src/input_text/buffer/mod.rs',
+             'find': 'std::mem::swap(&mut self.m2o, &mut self.m2o_2);', 'replace': ''},
+            {'name': 'commit accepts over-long text', 'file': 'sudachi/src/input_text/buffer/mod.rs',
+             'find': 'if sz > REALLY_MAX_LENGTH {', 'replace': 'if sz > REALLY_MAX_LENGTH + 1 {'},
+            {'name': 'identity map one short', 'file': 'sudachi/src/input_text/buffer/mod.rs',
+             'find': 'self.m2o.extend(0..self.modified.len() + 1);', 'replace': 'self.m2o.extend(0..self.modified.len() + 0);'},
+        ],
+    },
 }
 
 NOT_APPLICABLE = {
@@ -36,7 +49,7 @@ PROPS = {
     'C08': {
         'level_text': 'Verus discharges, for every text, map and edit batch, the postcondition `resolved` of the real resolve_edits/add_replace: rewritten text = specification, new offset map has one entry per byte, is non-decreasing, start->start, end->end, unreplaced positions keep their image',
         'level_note': 'assumed: plugins emit ordered non-overlapping edits on char boundaries; std contracts of str slicing, push_str, Vec::extend/drain, char::encode_utf8 (trusted wrappers R8/R9/R13); 64-bit usize; code-point offset tables (fill_orig_b2c) and Python begin()/end() not yet under contract',
-        'verus': ['v_edit'],
+        'verus': ['v_edit', 'v_buf0'],
         'kani': [],
         'assumptions': [
             'input-text plugins emit edit batches that are ordered, non-overlapping, in range and on UTF-8 character boundaries (edits_ok); they come from regex / aho-corasick match iterators',
